@@ -459,6 +459,35 @@ fn history_real_entropy(out: &mut Out, cx: &Cx, tag: &str, len: usize) {
     verdict(out, bad.is_none(), &format!("entropy_samples_wellformed {} samples={}", id, samples.len()), &cls, &bad.unwrap_or_default());
 }
 
+/// real entropy across THREADS: every generator created anywhere in the process draws fresh entropy, so the k-th object made by one thread
+/// never coincides with the k-th object made by another (threads run one after the other, then concurrently; shared context)
+fn history_real_entropy_threads(out: &mut Out, cx: &Cx, tag: &str) {
+    let work = |ctx: std::sync::Arc<HeContext>| -> (Vec<Vec<u8>>, Vec<u64>, Vec<u8>, Vec<u64>) {
+        hk::clear_entropy_override();
+        hk::arm_tape();
+        let kg = KeyGenerator::new(ctx.clone());
+        let pk = kg.create_public_key(false);
+        let enc = Encryptor::new(ctx.clone()).set_secret_key(kg.secret_key().clone()).set_public_key(pk);
+        let seeded = enc.encrypt_zero_symmetric_new();
+        let asym = enc.encrypt_zero_new();
+        let (gens, _) = split_tape(hk::take_tape());
+        (gens.iter().map(|(s, _)| s.to_vec()).collect(), kg.secret_key().data().to_vec(), stored_seed(&seeded).map(|s| s.to_vec()).unwrap_or_default(), asym.poly(1).to_vec())
+    };
+    for mode in ["sequential", "concurrent"] {
+        let mut res = vec![];
+        if mode == "sequential" { for _ in 0..3 { let c = cx.ctx.clone(); res.push(std::thread::spawn(move || work(c)).join()); } }
+        else { let hs: Vec<_> = (0..3).map(|_| { let c = cx.ctx.clone(); std::thread::spawn(move || work(c)) }).collect(); for h in hs { res.push(h.join()); } }
+        let res: Vec<_> = match res.into_iter().collect::<Result<Vec<_>, _>>() { Ok(r) => r, Err(_) => { out.raw(&format!("!FAIL entropy_threads {} {} :: a worker thread panicked # real-entropy-threads", tag, mode)); continue } };
+        let cls = format!("real-entropy-threads-{}", mode);
+        let id = format!("{} {} n={} threads={}", tag, mode, cx.n, res.len());
+        let all_gens: Vec<&Vec<u8>> = res.iter().flat_map(|r| r.0.iter()).collect();
+        verdict(out, all_gens.iter().collect::<HashSet<_>>().len() == all_gens.len(), &format!("entropy_threads_factory_seeds_distinct {} gens={}", id, all_gens.len()), &cls, "generators created on different threads got the same entropy seed");
+        verdict(out, res.iter().map(|r| &r.1).collect::<HashSet<_>>().len() == res.len(), &format!("entropy_threads_secrets_distinct {}", id), &cls, "key generators on different threads drew the same secret key");
+        verdict(out, res.iter().all(|r| r.2.len() == 64) && res.iter().map(|r| &r.2).collect::<HashSet<_>>().len() == res.len(), &format!("entropy_threads_stored_seeds_distinct {}", id), &cls, "seeded ciphertexts made on different threads share their stored seed");
+        verdict(out, res.iter().map(|r| &r.3).collect::<HashSet<_>>().len() == res.len(), &format!("entropy_threads_c1_distinct {}", id), &cls, "public-key encryptions made on different threads share c1");
+    }
+}
+
 // ------------------------------------------------------------------------------------------------ empirical (labelled tests)
 
 fn empirical(out: &mut Out, r: &mut Rng, thorough: bool) {
@@ -622,6 +651,7 @@ pub fn run(out: &mut Out, thorough: bool, seed: u64, extra: &[String]) {
             history(out, &mut r, &cx, &tag, hl);
             // (the distinctness oracles are probabilistic: not meaningful in the tiny sample spaces of N < 16)
             if n >= 16 && (si == k % 3 || thorough) { history_real_entropy(out, &cx, &tag, if thorough { 200 } else { 40 }); }
+            if n >= 32 && (k == 1 || k == 6 || thorough) { history_real_entropy_threads(out, &cx, &tag); }
         }
     }
     // ---- parameter sets the context accepts whose modulus does not exceed the error bound: errors must be reduced, never refused
